@@ -434,11 +434,16 @@ pub struct Observed {
 
 /// Run one case {prog, ctx0, handlers, acts?, gfun, gprefix?, ginfix?, gpostfix?, fault} on the real engine.
 pub fn run_case(r: &J, followups: bool) -> Observed {
-    run_case_ast(r, followups, None)
+    run_case_src(r, followups, None, None)
 }
 
 /// Like run_case, but evaluating an AST the caller already holds (the same parsed / built tree evaluated again, C16).
 pub fn run_case_ast(r: &J, followups: bool, shared: Option<&ExprAST<'static>>) -> Observed {
+    run_case_src(r, followups, shared, None)
+}
+
+/// `text`: evaluate by parsing this text (which may live in a buffer the caller reuses) instead of a pre-built tree.
+pub fn run_case_src(r: &J, followups: bool, shared: Option<&ExprAST<'static>>, text: Option<&str>) -> Observed {
     expression_engine::verif_hooks::init();
     let mut rets = HashMap::new();
     for (h, v) in obj(r, "handlers") {
@@ -520,7 +525,10 @@ pub fn run_case_ast(r: &J, followups: bool, shared: Option<&ExprAST<'static>>) -
             let _g = handle2.lock();
         })),
     }));
-    let res = guarded(std::panic::AssertUnwindSafe(|| ast.exec(&mut ctx)));
+    let res = match text {
+        Some(t) => guarded(std::panic::AssertUnwindSafe(|| parse_expression(t).and_then(|a| a.exec(&mut ctx)))),
+        None => guarded(std::panic::AssertUnwindSafe(|| ast.exec(&mut ctx))),
+    };
     let (st, val) = match &res {
         Err(_) => ("panic".to_string(), json!(["none"])),
         Ok(Err(_)) => ("err".to_string(), json!(["none"])),
@@ -946,6 +954,34 @@ pub fn determinism_replay(args: &[String]) {
             }
         }
     }
-    out.line(&json!({"summary": {"cases": n, "mismatches": bad}}));
+    // the text path through ONE reused line buffer (the way a rule file is read line by line): the program is rendered, copied
+    // into the buffer that held the previous program, parsed from there and evaluated; where the text parses back to the tree
+    // the specification evaluated, the outcome must be the specification's
+    let mut line = String::with_capacity(1 << 16);
+    let (mut text_cases, mut text_skipped) = (0u64, 0u64);
+    for (idx, r) in recs.iter().enumerate() {
+        let exp_st = r["st"].as_str().unwrap_or("dc");
+        let mut scratch = Context::new();
+        let mut hidden = 0u32;
+        let ast = build_ast(&r["prog"], &mut scratch, &mut hidden);
+        let text = ast.expr();
+        let t1 = text.clone();
+        let same_tree = guarded(move || parse_expression(leak(&t1)).map(|a| crate::astjson::ast_to_json(&a)).ok()).ok().flatten() == Some(crate::astjson::ast_to_json(&ast));
+        if exp_st == "dc" || hidden > 0 || !same_tree || text.len() >= line.capacity() {
+            text_skipped += 1;
+            continue;
+        }
+        line.clear();
+        line.push_str(&text);
+        n += 1;
+        text_cases += 1;
+        let o = run_case_src(r, false, None, Some(line.as_str()));
+        let ok = o.st == exp_st && (exp_st != "ok" || veq(&r["val"], &o.val)) && (o.poisoned || ctx_matches(&r["ctx"], &o.ctx));
+        if !ok {
+            bad += 1;
+            out.line(&json!({"mismatch": idx, "why": [format!("the program text {:?}, parsed from a line buffer that held other programs before, gave an outcome the specification does not give (status {} value {})", text, o.st, o.val)]}));
+        }
+    }
+    out.line(&json!({"summary": {"cases": n, "mismatches": bad, "text_path": text_cases, "text_path_skipped": text_skipped}}));
     out.flush();
 }
